@@ -3,6 +3,8 @@ import JunoModel.C20.ProofsOverlay
 import JunoModel.C20.ProofsHeap
 import JunoModel.C20.ProofsEntries
 import JunoModel.C20.ProofsRefine
+import JunoModel.C20.ProofsLastUpd
+import JunoModel.C20.ProofsAlias
 /-!
 C20 — property theorems (statements only; helper lemmas are in `Proofs*.lean`).
 Every theorem in this module is an obligation listed in evidence/C20.json with its axioms.
@@ -84,6 +86,38 @@ theorem held_view_is_the_view_taken (ops ops' : List Op) (b : Nat) :
   rw [held_view_stable ops ops' b]
   exact hsnapshot_view ops b
 
+/-- **`Merge` writes only into maps its receiver owns** (map-object model `Alias.lean`: every Go
+map is an object with an address; `w` is any watermark): if all maps of the receiver — the outer
+`StorageDiffs` map, every inner map it refers to, the single-level maps — were allocated at or
+above `w`, then after `Merge(incoming)`, for ANY `incoming`, every object below `w` is unchanged
+and the receiver still owns all it refers to (incoming inner maps are cloned, never adopted). -/
+theorem merge_writes_only_owned_maps {w : Nat} {m : Alias.Mem} {d : Alias.ADiff} (inc : Alias.ADiff)
+    (h : Alias.Owned w m d) :
+    Alias.Unch w m (Alias.merge m d inc).1 ∧
+    Alias.Owned w (Alias.merge m d inc).1 (Alias.merge m d inc).2 :=
+  Alias.merge_frame inc h
+
+/-- **The adapters and state builders never write to a published map.** The loop
+`d := EmptyStateDiff(); for x in xs { d.Merge(x) }` — the body of `AdaptPreConfirmedBlock` (xs = the
+per-transaction diffs), of `AdaptPreConfirmedWithDelta` (xs = the CURRENT, published entry's diff
+followed by the appended transactions' diffs) and of `PreConfirmedStateAt` /
+`PreConfirmedStateBeforeIndexAt` (xs = diffs of the view's published entries) — run on ANY memory
+with ANY incoming diffs leaves every map object that existed before the call untouched, and the
+diff it returns refers only to maps allocated during the call (so publishing it shares nothing
+with what readers already hold). -/
+theorem adapters_never_write_published_maps (m : Alias.Mem) (xs : List Alias.ADiff) :
+    Alias.Unch m.length m (Alias.squash m xs).1 ∧
+    Alias.Owned m.length (Alias.squash m xs).1 (Alias.squash m xs).2 :=
+  Alias.squash_frame m xs
+
+/-- The previous theorem is about the clone in `Merge`: the same loop with the incoming inner
+storage map adopted instead of cloned (the seeded defect of the self-test, not juno's code) writes
+into a published map. -/
+theorem frame_depends_on_clone :
+    ∃ (m : Alias.Mem) (xs : List Alias.ADiff) (a : Nat),
+      a < m.length ∧ (Alias.squashNoClone m xs).1[a]? ≠ m[a]? :=
+  Alias.adopting_inner_maps_breaks_frame
+
 /-- Writer operations only allocate: the heap after an operation is the heap before it plus
 fresh nodes (no published node is overwritten or unlinked). -/
 theorem writer_only_allocates (ops : List Op) (op : Op) :
@@ -159,6 +193,51 @@ theorem state_before_last_index_is_state_at (ops : List Op) (head b : Nat) (base
     ∃ e p, e ∈ v.newestFirst ∧ e.number = b ∧ stateAt v b baseAt = some p ∧
       stateBeforeIndexAt v b e.txs.length baseAt = .ok p :=
   stateBeforeIndex_end (run_wf ops) (run_allOK ops) head b baseAt
+
+/-! ### `ContractStorageLastUpdatedBlock` through a view (a defect of juno, see notes/C20.md)
+
+The full-strength statement — false of juno as it is — would be:
+
+    theorem lastUpdated_is_newest_writer (es : List PreConf) (head : Base) (b : Nat) (a k : Felt) :
+        (overlayOf es head b).lastUpdated a k = lastUpdatedSpec es head a k
+
+i.e. through a view the last-updated block of a slot is the newest block of the view (up to the
+requested one) that writes it. `pending.State` keeps one block number for the whole merged diff, so
+it answers the REQUESTED block for every slot any block of the view writes. -/
+
+/-- What the code answers, for every overlay (any list of blocks): the requested block number for
+any slot some block of the view writes; 0 for other slots of contracts the view deploys; the base's
+answer otherwise. -/
+theorem lastUpdated_as_implemented (es : List PreConf) (head : Base) (b : Nat) (a k : Felt) :
+    (overlayOf es head b).lastUpdated a k =
+      if es.any (fun e => AMap.has e.diff.storage (a, k)) then some b
+      else if es.any (fun e => AMap.has e.diff.deployed a) then some 0
+      else head.lastUpd a k :=
+  lastUpdated_asis es head b a k
+
+/-- `_partial`: the answer is the newest writing block only when the view does not write the slot
+at all or the newest block writing it is the requested block itself. Missing for the full
+statement: the case of a slot last written in an OLDER block of the view — there juno is wrong
+(next theorem). -/
+theorem lastUpdated_is_newest_writer_partial (es : List PreConf) (head : Base) (b : Nat) (a k : Felt)
+    (h : lastWriter es a k = none ∨ lastWriter es a k = some b) :
+    (overlayOf es head b).lastUpdated a k = lastUpdatedSpec es head a k :=
+  lastUpdated_right_when es head b a k h
+
+private def luBlock (n : Nat) (d : Diff) : PreConf :=
+  { number := n, ident := "x", txCount := 0, eventCount := 0, txs := [], receipts := [], txDiffs := [d], diff := d }
+private def luBase : Base :=
+  { classHash := fun _ => some 30, nonce := fun _ => some 0, storage := fun _ _ => some 0,
+    cls := fun _ => none, casm := fun _ => none, casmV2 := fun _ => none, lastUpd := fun _ _ => some 0 }
+
+/-- **Negation witness** (the replay `storage-last-updated-block-is-the-requested-block`): a view of
+blocks 11 and 12 where slot (7,1) is written in block 11 only; asked at block 12, juno answers 12,
+the newest writing block is 11. -/
+theorem lastUpdated_is_newest_writer_fails :
+    ∃ (es : List PreConf) (head : Base) (b a k : Nat),
+      (overlayOf es head b).lastUpdated a k ≠ lastUpdatedSpec es head a k :=
+  ⟨[luBlock 11 { storage := [((7, 1), 5)] }, luBlock 12 { storage := [((7, 2), 6)] }], luBase, 12, 7, 1,
+    by decide⟩
 
 /-! ## 4. lookups find exactly the items of the view's blocks -/
 
